@@ -134,6 +134,32 @@ def bounded(ctx, b):
                 ok = samples.dump(second) == fresh[i] and samples.dump(third) == fresh[i] and samples.dump(fourth) == fresh[i]
                 return ok, {"format": fmt, "document": i, "leak_into": [n for n, x in (("other result", second), ("later read, same reader", third), ("later read, fresh reader", fourth)) if samples.dump(x) != fresh[i]]}
             b.guard(("isolation", fmt, i), two, sample={"format": fmt, "document": i})
+    # reader options: a reader built with options and read with keyword arguments returns, on a used object, what a
+    # fresh one built and called the same way returns - and options of one call do not leak into the next
+    variants = {
+        "dfxp": [({"read_invalid_positioning": True}, {}), ({}, {})],
+        "webvtt": [({"ignore_timing_errors": False}, {}), ({"time_shift_milliseconds": 1500}, {"lang": "de"}), ({}, {})],
+        "srt": [({}, {"lang": "fr-FR"}), ({}, {})],
+        "microdvd": [({}, {"lang": "es"}), ({}, {})],
+        "sami": [({}, {})],
+        "scc": [({}, {"offset": 1}), ({}, {"lang": "de-DE", "simulate_roll_up": True}), ({}, {"offset": 2, "lang": "fr"}), ({}, {})],
+    }
+    for fmt, ds in docs.items():
+        R = READERS[fmt]
+        for ctor_kw, _ in variants[fmt]:
+            used = R(**ctor_kw)
+            for read_kw in [kw for ck, kw in variants[fmt] if ck == ctor_kw] + [kw for _, kw in variants[fmt]]:
+                for i, a in enumerate(ds):
+                    def opt(R=R, used=used, ctor_kw=ctor_kw, read_kw=read_kw, a=a, i=i, fmt=fmt):
+                        def run(r):
+                            try:
+                                return samples.dump(r.read(a, **read_kw))
+                            except Exception as e:
+                                return f"raised {type(e).__name__}"
+                        got, ref = run(used), run(R(**ctor_kw))
+                        return got == ref, {"format": fmt, "document": i, "reader_options": ctor_kw, "read_arguments": read_kw}
+                    b.guard(("options", fmt, str(ctor_kw), str(read_kw), i, len(b.nontrivial)), opt,
+                            sample={"format": fmt, "document": i, "reader_options": ctor_kw, "read_arguments": read_kw})
     # reads interleaved across formats on long-lived reader objects
     long_lived = {f: R() for f, R in READERS.items()}
     order = [(f, i) for f in sorted(docs) for i in range(len(docs[f]))]
